@@ -45,6 +45,66 @@ impl Continuation {
 mod proofs {
     use super::*;
 
+    // ---- Part 2: HeaderBlock::load — ordering of pseudo-header fields across the frames of one field block (C13).
+    // RFC 9113 8.3: "All pseudo-header fields MUST appear in a field block before all regular field lines. Any request or
+    // response that contains a pseudo-header field that appears in a field block after a regular field line MUST be
+    // treated as malformed."  A field block may arrive as HEADERS + CONTINUATION fragments decoded by separate `load`
+    // calls on the same HeaderBlock, so "a regular field was already seen" must survive from one call to the next.
+    // Pre-state: an earlier fragment delivered one regular field.  Input: a one-octet fragment, the indexed
+    // representation of static-table entry `idx` (a pseudo-header field).  Must be MalformedMessage, and the pseudo field
+    // must not be recorded.
+    fn hb_load_pseudo_after_regular_case(idx: u8) {
+        let mut fields = HeaderMap::new();
+        fields.insert(header::ACCEPT, HeaderValue::from_static("*/*"));
+        let mut hb = HeaderBlock { field_size: calculate_headermap_size(&fields), fields, is_over_size: false, pseudo: Pseudo::default() };
+        let mut dec = hpack::Decoder::new(4096);
+        let mut src = BytesMut::with_capacity(8);
+        src.extend_from_slice(&[0x80 | idx]);
+        let r = hb.load(&mut src, 16 << 10, &mut dec);
+        assert!(matches!(r, Err(Error::MalformedMessage)), "headers.load.pseudo_header_after_regular_field_of_an_earlier_fragment_is_malformed");
+        assert!(hb.pseudo == Pseudo::default(), "headers.load.late_pseudo_header_is_not_recorded");
+        assert!(hb.fields.len() == 1, "headers.load.late_pseudo_header_leaves_fields_alone");
+        kani::cover!(true, "cover.reached");
+        std::mem::forget(r);
+        std::mem::forget(hb);
+        std::mem::forget(dec);
+        std::mem::forget(src);
+    }
+
+    // @harness id=hb_load_pseudo_after_regular_method props=C13 kind=bounded bound=one-octet_fragment,static_entry_2(:method_GET) tier=thorough timeout=2400 fn=HeaderBlock::load
+    #[kani::proof]
+    #[kani::unwind(10)]
+    fn hb_load_pseudo_after_regular_method() {
+        hb_load_pseudo_after_regular_case(2);
+    }
+
+    // @harness id=hb_load_pseudo_after_regular_status props=C13 kind=bounded bound=one-octet_fragment,static_entry_8(:status_200) tier=thorough timeout=2400 fn=HeaderBlock::load
+    #[kani::proof]
+    #[kani::unwind(10)]
+    fn hb_load_pseudo_after_regular_status() {
+        hb_load_pseudo_after_regular_case(8);
+    }
+
+    // Twin (non-vacuity of the case above): the same octet as the FIRST field of a block is accepted and recorded.
+    // @harness id=hb_load_pseudo_first props=C13 kind=bounded bound=one-octet_block,static_entry_2 tier=thorough timeout=2400 fn=HeaderBlock::load
+    #[kani::proof]
+    #[kani::unwind(10)]
+    fn hb_load_pseudo_first() {
+        let mut hb = HeaderBlock { field_size: 0, fields: HeaderMap::new(), is_over_size: false, pseudo: Pseudo::default() };
+        let mut dec = hpack::Decoder::new(4096);
+        let mut src = BytesMut::with_capacity(8);
+        src.extend_from_slice(&[0x82]);
+        let r = hb.load(&mut src, 16 << 10, &mut dec);
+        assert!(r.is_ok(), "headers.load.pseudo_header_first_is_accepted");
+        assert!(hb.pseudo.method == Some(Method::GET) && hb.fields.is_empty(), "headers.load.pseudo_header_first_is_recorded");
+        kani::cover!(true, "cover.reached");
+        std::mem::forget(r);
+        std::mem::forget(hb);
+        std::mem::forget(dec);
+        std::mem::forget(src);
+    }
+
+
     // Every octet string of length 0..=21.  The real loop runs at most 19 times (the length test comes
     // first and, for longer inputs, returns before any octet is read — lengths 20 and 21 exercise that),
     // so the bound below is an operand-width bound: complete.  (kissat: 3x faster than cadical here.)
